@@ -94,15 +94,17 @@ func (r *TaskRunner) Run(t *task.Task) error {
 	// register as in flight unless the runner is already cancelled; Cancel sets
 	// the flag under the write lock, so it either sees this run or this run sees the flag
 	r.cancelMutex.RLock()
+	// this run lives and dies with the context that is current when it starts
+	ctx := r.ctx
 	if r.canceling {
 		r.cancelMutex.RUnlock()
-		return r.ctx.Err()
+		return ctx.Err()
 	}
 	r.running.Add(1)
 	r.cancelMutex.RUnlock()
 	defer r.running.Done()
 
-	if err := r.ctx.Err(); err != nil {
+	if err := ctx.Err(); err != nil {
 		return err
 	}
 
@@ -157,7 +159,7 @@ func (r *TaskRunner) Run(t *task.Task) error {
 		return nil
 	}
 
-	err = r.before(r.ctx, t, execContext, env, vars)
+	err = r.before(ctx, t, execContext, env, vars)
 	if err != nil {
 		return err
 	}
@@ -172,13 +174,13 @@ func (r *TaskRunner) Run(t *task.Task) error {
 		return err
 	}
 
-	err = r.execute(r.ctx, t, job)
+	err = r.execute(ctx, t, job)
 	if err != nil {
 		return err
 	}
 	r.storeTaskOutput(t)
 
-	return r.after(r.ctx, t, execContext, env, vars)
+	return r.after(ctx, t, execContext, env, vars)
 }
 
 // Cancel cancels execution
@@ -192,6 +194,17 @@ func (r *TaskRunner) Cancel() {
 	r.cancelMutex.Unlock()
 	// wait for the runs that are in flight (none, one or several)
 	r.running.Wait()
+}
+
+// Reset makes a cancelled runner accept runs again. Runs that were cancelled
+// stay cancelled; a runner that was not cancelled is left as it is
+func (r *TaskRunner) Reset() {
+	r.cancelMutex.Lock()
+	defer r.cancelMutex.Unlock()
+	if r.canceling {
+		r.ctx, r.cancelFunc = context.WithCancel(context.Background())
+		r.canceling = false
+	}
 }
 
 // Finish makes cleanup tasks over contexts
